@@ -39,13 +39,15 @@ def scopeStep1 (s : ScopeSt) (toks : List String) : ScopeSt × String :=
         | none => ({ s with dead := true }, "GARBAGE")
         | some (f', evs) => ({ s with f := f', live := s.live.drop (i + 1) }, showEvs evs)
       | _, _ => (s, "bad-op")
-  | ["last"] =>
+  | ["last"] | ["last", "null"] =>
     match lastScope s.f with
     | none => (s, "GARBAGE")
     | some none => (s, "fallback")
     | some (some a) => match s.live.find? (·.2 == a) with
       | some (k, _) => (s, s!"s{k}")
       | none => (s, "GARBAGE")
+  | ["fresh"] =>      -- a thread that has never begun a scope: nothing is live
+    (s, match lastScope newFactory with | some none => "fallback" | _ => "GARBAGE")
   | ["exit"] =>
     match threadExit s.f (s.live.length + 1) with
     | none => ({ s with dead := true }, "GARBAGE")
